@@ -120,9 +120,15 @@ example : ∃ m ∈ loopTable, ∃ segs ∈ m.2, segs.any (·.isLoop) = true := 
     * `Units.mul_units` / `Units.div_units`: raise only through the `Units` constructor on malformed exponents;
       `_require_units_allowed` ran before;
     * `Qube._dtype` (in `_new_values_`/`_set_values_`): raises only for a dtype kind other than bool/int/float;
-    * `Qube.remask` (in `require_writable`, re-entered through `delete_derivs`): normalises the object's own mask. -/
+    * `Qube.remask` (in `require_writable`, re-entered through `delete_derivs`): normalises the object's own mask.
+    * `"rep:numpy.store"` — KNOWN FINDING KF-C18-2 (real, replayed by the harness): `__setitem__` expands a single-bool
+      mask to an array (indexer.py:175-179) BEFORE the store into the values can be refused by NumPy (a right-hand
+      side of the wrong shape); the exception leaves a cached antimask that is still a single bool next to an array
+      mask; no cached ANSWER is wrong, but `corners`/`_slicer` then raise ValueError in `_find_corners` (with the
+      cache disabled they answer).  Only this representation mismatch is tolerated at a refused store. -/
 def exemptExits : List String :=
-  ["Qube._require_compatible_deriv", "Units.mul_units", "Units.div_units", "Qube._dtype", "Qube.remask"]
+  ["Qube._require_compatible_deriv", "Units.mul_units", "Units.div_units", "Qube._dtype", "Qube.remask",
+   "rep:numpy.store"]
 
 -- FULL: the same with `exemptExits = []`.
 /-- T2: at EVERY point of every path of every public mutator where a helper that can raise is called (a polymath
@@ -147,6 +153,18 @@ example : ∃ m ∈ publicTable, ∃ es ∈ m.2, es.any (fun e => match e with |
 /-- an exit after the mask has been written and before the clear is rejected -/
 example : pathExitsOK [] [.write .mask .rebind, .mayRaise "helper", .cacheClear, .ret] = false := by decide
 
+/-- KF-C18-2 in the abstract: the shape of `__setitem__` on main — expansion of the mask, then a store that may be
+    refused — is rejected without the `rep:` exemption, accepted with it; the seeded variant that stores into the
+    MASK first (mutant C18x-b) is rejected even with it -/
+theorem mask_expansion_exit_counterexample :
+    pathExitsOK [] [.write .mask .same, .maskRepChanged, .mayRaise "numpy.store", .write .values .store,
+                    .cacheClear, .ret] = false ∧
+    pathExitsOK ["rep:numpy.store"] [.write .mask .same, .maskRepChanged, .mayRaise "numpy.store",
+                    .write .values .store, .cacheClear, .ret] = true ∧
+    pathExitsOK ["rep:numpy.store"] [.write .mask .same, .maskRepChanged, .mayRaise "numpy.store",
+                    .write .mask .store, .mayRaise "numpy.store", .write .values .store, .cacheClear, .ret] = false := by
+  refine ⟨?_, ?_, ?_⟩ <;> decide
+
 /-- the mutator steps the history theorems speak about:
     * a path of the regenerated table on which the mutator returns (or raises on a covered path),
     * ANY unrolling of a segmented path of `loopTable` (every number of iterations),
@@ -155,16 +173,17 @@ def Admissible (st : Step) : Prop :=
   st.admissible publicTable = true ∨
   (∃ es post fills, st = .events es post fills ∧ ∃ m ∈ loopTable, ∃ segs ∈ m.2, Expands segs es) ∨
   (∃ pre rest site post fills, st = .events pre post fills ∧ exemptExits.contains site = false ∧
+    exemptExits.contains ("rep:" ++ site) = false ∧
     ((∃ m ∈ publicTable, (pre ++ .mayRaise site :: rest) ∈ m.2) ∨
      (∃ m ∈ loopTable, ∃ segs ∈ m.2, Expands segs (pre ++ .mayRaise site :: rest))))
 
 theorem admissible_covered_all {st : Step} (h : Admissible st) : st.covered publicTable = true := by
-  rcases h with h | ⟨es, post, fills, rfl, m, hm, segs, hs, he⟩ | ⟨pre, rest, site, post, fills, rfl, hsite, h⟩
+  rcases h with h | ⟨es, post, fills, rfl, m, hm, segs, hs, he⟩ | ⟨pre, rest, site, post, fills, rfl, hsite, hrep, h⟩
   · exact admissible_covered h
   · exact policy_covers_all_iterations m hm segs hs es he
   · rcases h with ⟨m, hm, hes⟩ | ⟨m, hm, segs, hs, he⟩
-    · exact pathExitsOK_prefix exemptExits pre rest site (policy_exceptional_exits_partial m hm _ hes) hsite
-    · exact segsAllExits_prefix exemptExits (loop_exceptional_exits_partial m hm segs hs) he hsite
+    · exact pathExitsOK_prefix exemptExits pre rest site (policy_exceptional_exits_partial m hm _ hes) hsite hrep
+    · exact segsAllExits_prefix exemptExits (loop_exceptional_exits_partial m hm segs hs) he hsite hrep
 
 /-! #### the invariant, for histories of any length -/
 
